@@ -43,6 +43,11 @@ type Cell struct {
 	Racy  bool `json:"racy"`  // the two fids are created by walks that return from the backend together
 	// SameFid: request B names the fid of request A (same connection)
 	SameFid bool `json:"samefid"`
+	// Triple: three requests - a rename of a/fs onto a/ft held inside RenameAt, then Tunlinkat(a, "ft")
+	// and a Tread through a fid on a/fs, both queued behind it; when the rename returns, the unlink of
+	// the entry and the read of that entry must still exclude each other (the unlink has to lock the
+	// path node the entry has AFTER the rename)
+	Triple bool `json:"triple"`
 }
 
 // Result of a cell.
@@ -169,7 +174,116 @@ func prepare(s *session, op Op, base int, walked bool) (string, wirecodec.Values
 	return "", nil, fmt.Errorf("unknown op %q", op.Name)
 }
 
+func runTriple(t *wirecodec.Table, c Cell, wait time.Duration, evlog *[]map[string]any) Result {
+	res := Result{ID: c.ID}
+	auto := puppet.NewAuto()
+	defer auto.Stop()
+	srv := p9.NewServer(&puppet.Attacher{C: auto.C})
+	s1, err := newSession(t, srv)
+	if err != nil {
+		res.Err = err.Error()
+		return res
+	}
+	for _, st := range []struct {
+		n string
+		v wirecodec.Values
+	}{
+		{"Twalk", wirecodec.Values{"fid": 1, "newfid": 10, "names": []string{"a"}}},
+		{"Twalk", wirecodec.Values{"fid": 1, "newfid": 11, "names": []string{"a", "fs"}}},
+		{"Tlopen", wirecodec.Values{"fid": 11, "flags": 0}},
+	} {
+		if _, err := s1.call(st.n, st.v); err != nil {
+			res.Err = "triple setup: " + err.Error()
+			return res
+		}
+	}
+	setupEvents := len(auto.Events())
+	auto.SetGate(func(call *puppet.Call) bool { return call.K == "RenameAt" })
+	s1.tag++
+	tA := s1.tag
+	s1.raw.Send("Trenameat", tA, wirecodec.Values{"olddirfid": 10, "oldname": "fs", "newdirfid": 10, "newname": "ft"})
+	select {
+	case <-auto.Notify:
+		res.AHeld = true
+	case <-time.After(3 * time.Second):
+		res.Err = "triple: the rename never reached RenameAt"
+		return res
+	}
+	// B and C queue behind the rename
+	s1.tag++
+	tB := s1.tag
+	s1.raw.Send("Tunlinkat", tB, wirecodec.Values{"dirfd": 10, "name": "ft", "flags": 0})
+	time.Sleep(10 * time.Millisecond)
+	s1.tag++
+	tC := s1.tag
+	s1.raw.Send("Tread", tC, wirecodec.Values{"fid": 11, "offset": 0, "count": 5})
+	time.Sleep(20 * time.Millisecond)
+	// everything that enters the backend from now on stays inside; let the rename return
+	auto.SetGate(func(call *puppet.Call) bool { return call.K == "UnlinkAt" || call.K == "ReadAt" })
+	auto.Release(func(call *puppet.Call) bool { return call.K == "RenameAt" })
+	inside := 0
+	deadline := time.After(wait + 100*time.Millisecond)
+wait:
+	for {
+		select {
+		case call := <-auto.Notify:
+			inside++
+			res.BFirst += call.K + " "
+		case <-deadline:
+			break wait
+		}
+	}
+	res.Overlap = inside >= 2
+	auto.SetGate(nil)
+	auto.Release(nil)
+	got := map[uint16]string{}
+	dl := time.After(3 * time.Second)
+loop:
+	for len(got) < 3 {
+		select {
+		case b, ok := <-s1.raw.FR.C:
+			if !ok {
+				break loop
+			}
+			if f, err := t.Decode(b); err == nil {
+				got[f.Tag] = f.Name
+			}
+		case <-dl:
+			break loop
+		}
+	}
+	res.ARep, res.BRep = got[tA], got[tB]
+	res.Hang = len(got) < 3
+	s1.raw.Hangup()
+	select {
+	case <-s1.done:
+	case <-time.After(2 * time.Second):
+		res.Hang = true
+	}
+	evs := auto.Events()
+	res.EvFrom = len(*evlog) + 1
+	*evlog = append(*evlog, map[string]any{"ev": "reset", "cell": c.ID})
+	for _, e := range evs[setupEvents:] {
+		entry := ""
+		if e.K == "UnlinkAt" && len(e.Names) > 0 {
+			entry = e.Names[0]
+		}
+		path := e.Path
+		if path == nil {
+			path = []string{}
+		}
+		req := map[string]string{"RenameAt": "renameat", "Renamed": "renameat", "UnlinkAt": "unlinkat", "ReadAt": "read"}[e.K]
+		*evlog = append(*evlog, map[string]any{"ev": e.Ev, "cell": c.ID, "call": e.Call, "k": e.K, "file": e.F,
+			"path": path, "entry": entry, "nonames": len(e.Names) == 0, "req": req})
+	}
+	res.EvTo = len(*evlog)
+	return res
+}
+
 func runCell(t *wirecodec.Table, c Cell, wait time.Duration, evlog *[]map[string]any) Result {
+	if c.Triple {
+		return runTriple(t, c, wait, evlog)
+	}
 	res := Result{ID: c.ID}
 	auto := puppet.NewAuto()
 	defer auto.Stop()
